@@ -42,6 +42,25 @@ def _worker(args):
         rep = None
         if getattr(o, "runner", None) is not None:
             return r.to_json()
+        if r.status == "discharged" and r.decls and not getattr(o, "no_unroll", False) and not getattr(o, "no_crosscheck", False):
+            # A2 / A1 guard: the contract that was just PROVED for all inputs is also evaluated on the real code with the
+            # installed NumPy on a handful of concrete inputs; a failure there means the shim's model of NumPy (or the
+            # engine) is wrong, or that the code breaks the contract outside the model (rounding): reported with its input
+            stats = {}
+            try:
+                w = framework.enumerate_witness(o, r.decls, seed=int(os.environ.get("VERIF_SEED", "0")) + 17,
+                                                budget=(600 if os.environ.get("PYVC_TIER") == "thorough" else 60), stats=stats)
+            except Exception as e:
+                w = None
+                r.note += " cross-check crashed: %r;" % (e,)
+            r.cases = stats.get("evaluated", 0)
+            if w is not None:
+                r.status = "refuted"
+                r.witness, r.replay = w[0], w[1]
+                for lab in w[1]["failed"]:
+                    r.goals.append(framework.GoalResult(lab, "sat", 0.0, backend="concrete-crosscheck", path=0))
+                r.note += " PROVED symbolically but a concrete input on the real code with the installed NumPy violates the contract (shim / rounding): %d tried" % w[2]
+            return r.to_json()
         if r.status == "undecided" and r.decls and not getattr(o, "no_unroll", False):
             # DESIGN 2.9: an undecided obligation is evaluated concretely on the real function over the bounded
             # enumerator; only a concrete failing input turns it into a violation
